@@ -671,3 +671,25 @@ def element_of_field_or_copy(summ: Summary, av: Optional[AV], field_loc) -> bool
 def own(summ: Summary):
     """The events of the entry frame and of the private-helper frames reached from it (see walk_own), as a list."""
     return [ev for ev, _ in walk_own(summ)]
+
+
+def code_nodes(prog, fi, depth=2):
+    """The function definition of `fi` and of the private helpers it (transitively, `depth` levels) calls: what an
+    AST-shaped rule has to look at so that moving a block into a private helper / a module-level function does not
+    hide it."""
+    hs = helpers_of(prog, fi)
+    out, seen = [fi.node], {id(fi.node)}
+    frontier = [fi.node]
+    for _ in range(depth):
+        nxt = []
+        for fn in frontier:
+            for c in ast.walk(fn):
+                if isinstance(c, ast.Call):
+                    nm = c.func.attr if isinstance(c.func, ast.Attribute) else getattr(c.func, "id", None)
+                    h = hs.get(nm) if nm and nm.startswith("_") and not (nm.startswith("__") and nm.endswith("__")) else None
+                    if h is not None and id(h) not in seen:
+                        seen.add(id(h))
+                        out.append(h)
+                        nxt.append(h)
+        frontier = nxt
+    return out
